@@ -1,3 +1,5 @@
 import Sqljson.Audit
 import Sqljson.Props.C10
+import Sqljson.Props.C10b
 #audit_ns C10 Sqljson.C10
+#audit_ns C10 Sqljson.C10b
